@@ -327,7 +327,14 @@ func (d *Daemon) LogTail(n int) string {
 func ClientTLS(ca *CA, certs ...tls.Certificate) *tls.Config {
 	pool := x509.NewCertPool()
 	pool.AppendCertsFromPEM(ca.CertPEM)
-	return &tls.Config{RootCAs: pool, Certificates: certs, MinVersion: tls.VersionTLS13}
+	cfg := &tls.Config{RootCAs: pool, MinVersion: tls.VersionTLS13}
+	if len(certs) > 0 {
+		// Force-send the certificate: Go's client would silently withhold one whose issuer is not among the
+		// authorities the server names in its request, turning a hostile caller into a certificate-less one.
+		c := certs[0]
+		cfg.GetClientCertificate = func(*tls.CertificateRequestInfo) (*tls.Certificate, error) { return &c, nil }
+	}
+	return cfg
 }
 
 // Dial opens a gRPC connection; cfg == nil means plaintext.  srcIP optionally binds the local address.
